@@ -189,14 +189,54 @@ def derive_step(meta, g):
         st["Ps"] = [U.scale_cov(U.rnd_psd(g, n, r.choice(U.PSD_STYLES)), d) for _ in range(k)]
         st["means"] = [[v * d[i] for i, v in enumerate(g.vec(n))] for _ in range(k)]
         st["skip"] = r.random() < 0.15
+        st["mchg"] = False
+        if r.random() < 0.6:
+            # time-varying model: new content of the same sizes from this step on (any subset of F, noise input, Q, u)
+            st["mchg"] = True
+            if r.random() < 0.6:
+                st["F"] = rnd_F(g, n, r.choice(["general", "general", "triangular", "dyadic", "identity"]))
+            if meta["variant"] == 0:
+                if r.random() < 0.8:
+                    st["Q"] = U.scale_cov(U.rnd_psd(g, n, r.choice(["full", "full", "dyadic", "singular", "zero"])), d)
+                st["Qeff"] = st["Q"]
+            else:
+                nz = meta["nz"]
+                if r.random() < 0.8:
+                    _, dz = U.rnd_scales(g, nz)
+                    st["Q"] = U.scale_cov(U.rnd_psd(g, nz, r.choice(["full", "full", "dyadic", "singular", "diag"])), dz)
+                if r.random() < 0.4:
+                    st["G"] = g.mat(n, nz)
+                Gf, Qf = U.fmat(st["G"]), U.fmat(st["Q"])
+                st["Qeff"] = round_mat(vlib.mmul(vlib.mmul(Gf, Qf), vlib.mT(Gf)))
+            if meta["exo"] and r.random() < 0.5:
+                st["u"] = [v * d[i] for i, v in enumerate(g.vec(n))]
     else:
         sc = 2.0 ** SCALE_EXP.get(meta["scale"], 0)
         st["Ps"] = [U.scale_cov(U.rnd_psd(g, n, r.choice(["full", "full", "dyadic", "singular", "diag"])), [sc] * n) for _ in range(k)]
         st["means"] = [[v * sc for v in g.vec(n)] for _ in range(k)]
         st["y"] = [v * sc for v in g.vec(meta["m"])]
         st["fail"] = r.choice([0] * 8 + [1, 2, 3, 4])
-        st["chg"] = False
-        if meta["variant"] == 1 and meta["online"] and r.random() < 0.5:
+        st["chg"] = 0
+        if r.random() < 0.5:
+            # time-varying model: new content of the same sizes (any subset of H, D, R)
+            st["chg"] = 2
+            m_ = meta["m"]
+            if r.random() < 0.6:
+                st["H"] = g.mat(m_, n)
+            if meta["variant"] == 0:
+                if r.random() < 0.8:
+                    st["R"] = U.scale_cov(g.spd(m_, cond=10 ** r.uniform(0, 3)), [sc] * m_)
+                st["Reff"] = st["R"]
+            else:
+                nz = meta["nz"]
+                if r.random() < 0.8:
+                    st["R"] = U.scale_cov(g.spd(nz, cond=10 ** r.uniform(0, 3)), [sc] * nz)
+                if r.random() < 0.4:
+                    d_ = r.choice([1.0, 0.5, 2.0])
+                    st["D"] = [[(d_ if i == j else 0.0) + (g.dyadic(-1, 1, 3) * 0.25 if r.random() < 0.5 else 0.0) for j in range(nz)] for i in range(m_)]
+                Df, Rf = U.fmat(st["D"]), U.fmat(st["R"])
+                st["Reff"] = round_mat(vlib.mmul(vlib.mmul(Df, Rf), vlib.mT(Df)))
+        elif meta["variant"] == 1 and meta["online"] and r.random() < 0.6:
             # the noise input changes size from this step on (what update_weights_online exists for)
             m_ = meta["m"]
             nz = m_ + r.choice([0, 1, 2])
@@ -204,7 +244,7 @@ def derive_step(meta, g):
             d = r.choice([1.0, 0.5, 2.0])
             D = [[(d if i == j else 0.0) + (g.dyadic(-1, 1, 3) * 0.25 if r.random() < 0.5 else 0.0) for j in range(nz)] for i in range(m_)]
             Df, Rf = U.fmat(D), U.fmat(R)
-            st.update({"chg": True, "nz": nz, "R": R, "D": D, "Reff": round_mat(vlib.mmul(vlib.mmul(Df, Rf), vlib.mT(Df)))})
+            st.update({"chg": 1, "nz": nz, "R": R, "D": D, "Reff": round_mat(vlib.mmul(vlib.mmul(Df, Rf), vlib.mT(Df)))})
     return st
 
 
@@ -228,7 +268,17 @@ def seq_line(steps):
             h += U.cm_tokens(m0["Q"])
         h += [hexd(x) for x in m0["u"]] + [str(len(steps))]
         for st in steps:
-            h += ["1" if st["skip"] else "0", str(st["k"])] + bel(st)
+            h += ["1" if st["skip"] else "0", str(st["k"])]
+            if st.get("mchg"):
+                h += ["1"] + U.cm_tokens(st["F"])
+                if v == 1:
+                    h += U.cm_tokens(st["G"]) + U.cm_tokens(st["Q"]) + U.cm_tokens(st["Qeff"])
+                else:
+                    h += U.cm_tokens(st["Q"])
+                h += [hexd(x) for x in st["u"]]
+            else:
+                h += ["0"]
+            h += bel(st)
     else:
         h = ["ukfcs", str(v), str(n), str(nz), str(m0["m"])] + par + ["1" if m0["online"] else "0"] + U.cm_tokens(m0["H"])
         if v == 1:
@@ -239,7 +289,11 @@ def seq_line(steps):
         for st in steps:
             h += [str(st["fail"]), str(st["k"])]
             if st.get("chg"):
-                h += ["1", str(st["nz"])] + U.cm_tokens(st["D"]) + U.cm_tokens(st["R"]) + U.cm_tokens(st["Reff"])
+                h += [str(int(st["chg"]))] + U.cm_tokens(st["H"])
+                if v == 1:
+                    h += [str(st["nz"])] + U.cm_tokens(st["D"]) + U.cm_tokens(st["R"]) + U.cm_tokens(st["Reff"])
+                else:
+                    h += U.cm_tokens(st["R"])
             else:
                 h += ["0"]
             h += [hexd(x) for x in st["y"]] + bel(st)
@@ -257,6 +311,17 @@ def split_seq(h, nsteps):
 
 
 # ------------------------------------------------------------------------------------------------ parsing
+
+def finite_frac(tok):
+    """exact value of a hex double, None for NaN / inf"""
+    if (int(tok, 16) >> 52) & 0x7ff == 0x7ff:
+        return None
+    return frac_of_hex(tok)
+
+
+def has_nonfinite(means, covs):
+    return any(v is None for m in means for v in m) or any(v is None for P in covs for row in P for v in row)
+
 
 def read_gm(t, p, n, k, conv):
     """a mixture printed with its shape in front; returns (means, covs, weights, p) — means / covs are None when the
@@ -308,17 +373,28 @@ def check_ukfp(meta, h, stats, notes):
     t = h.split()
     xr, xc = int(t[1]), int(t[2])
     p = 3
-    um, uc, uw, p = read_gm(t, p, n, k, frac_of_hex)
-    km, kc, kw, p = read_gm(t, p, n, k, frac_of_hex)
+    um, uc, uw, p = read_gm(t, p, n, k, finite_frac)
+    km, kc, kw, p = read_gm(t, p, n, k, finite_frac)
+    if um is not None and km is not None and (has_nonfinite(um, uc) or has_nonfinite(km, kc)):
+        if has_nonfinite(km, kc):
+            notes["kalman_side_not_finite"] = notes.get("kalman_side_not_finite", 0) + 1
+            return [], None, None
+        return [("prop", "ukf-output-not-finite", "UKFPrediction returned NaN / inf entries for a finite belief and model; KFPrediction returned finite values")], None, None
     if um is None or km is None:
         return [("prop", "predict-shape-differs", "UKFPrediction returned a mixture of another shape than %d components of dimension %d (KFPrediction: %s)" % (k, n, "same problem" if km is None else "expected shape"))], None, None
-    X = vlib.mat_from_cm(t[p:p + xr * xc], xr, xc, frac_of_hex); p += xr * xc
+    X = vlib.mat_from_cm(t[p:p + xr * xc], xr, xc, finite_frac); p += xr * xc
+    if any(v is None for row in X for v in row):
+        # the step's own result is finite (checked above) although sigma_point() on the same input is not: C03's subject
+        notes["sigma_points_not_finite(C03)"] = notes.get("sigma_points_not_finite(C03)", 0) + 1
+        X = None
     if t[p] != "in-same":
         notes["input_modified"] = notes.get("input_modified", 0) + 1
     if uw != kw:
         notes["predict_weights_differ_ukf_vs_kf"] = notes.get("predict_weights_differ_ukf_vs_kf", 0) + 1
     o = {"um": um, "uc": uc, "km": km, "kc": kc, "X": X}
     probs = []
+    if X is None:
+        return [("corr", "ukf-points-not-finite", "sigma_point() on the step's input returns NaN / inf although the step's result is finite (no rounding bound can be derived)")], o, None
     if (xr, xc) != (N, (2 * N + 1) * k):
         probs.append(("corr", "ukf-points-shape", "sigma points of the step's input are %dx%d, model: %dx%d (no rounding bound can be derived)" % (xr, xc, N, (2 * N + 1) * k)))
         return probs, o, None
@@ -435,15 +511,28 @@ def check_ukfc(meta, h, stats, notes):
     t = h.split()
     xr, xc = int(t[1]), int(t[2])
     p = 3
-    um, uc, uw, p = read_gm(t, p, n, k, frac_of_hex)
+    um, uc, uw, p = read_gm(t, p, n, k, finite_frac)
     ulik, p = read_lik(t, p)
-    km, kc, kw, p = read_gm(t, p, n, k, frac_of_hex)
+    km, kc, kw, p = read_gm(t, p, n, k, finite_frac)
     klik, p = read_lik(t, p)
+    if not meta["fail"] and um is not None and km is not None:
+        u_bad = has_nonfinite(um, uc) or (ulik is not None and not all(math.isfinite(v) for v in ulik))
+        k_bad = has_nonfinite(km, kc) or (klik is not None and not all(math.isfinite(v) for v in klik))
+        if k_bad:
+            notes["kalman_side_not_finite"] = notes.get("kalman_side_not_finite", 0) + 1
+            return [], None, None
+        if u_bad:
+            return [("prop", "ukf-output-not-finite", "UKFCorrection returned NaN / inf entries (mean, covariance or likelihood) for a finite belief, model and measurement; KFCorrection returned finite values")], None, None
+    elif meta["fail"] and um is not None and has_nonfinite(um, uc):
+        return [], None, None
     if um is None or km is None:
         if meta["fail"]:
             return [], None, None
         return [("prop", "correct-shape-differs", "UKFCorrection returned a mixture of another shape than %d components of dimension %d (KFCorrection: %s)" % (k, n, "same problem" if km is None else "expected shape"))], None, None
-    X = vlib.mat_from_cm(t[p:p + xr * xc], xr, xc, frac_of_hex); p += xr * xc
+    X = vlib.mat_from_cm(t[p:p + xr * xc], xr, xc, finite_frac); p += xr * xc
+    if any(v is None for row in X for v in row):
+        notes["sigma_points_not_finite(C03)"] = notes.get("sigma_points_not_finite(C03)", 0) + 1
+        X = None
     if t[p] != "in-same":
         notes["input_modified"] = notes.get("input_modified", 0) + 1
     if uw != kw:
@@ -461,6 +550,8 @@ def check_ukfc(meta, h, stats, notes):
             notes["getLikelihood_without_innovations_returns_false"] = notes.get("getLikelihood_without_innovations_returns_false", 0) + 1
         return [], o, None
     probs = []
+    if X is None:
+        return [("corr", "ukf-points-not-finite", "sigma_point() on the step's input returns NaN / inf although the step's result is finite (no rounding bound can be derived)")], o, None
     if (xr, xc) != (N, (2 * N + 1) * k):
         probs.append(("corr", "ukf-points-shape", "sigma points of the step's input are %dx%d, model: %dx%d (no rounding bound can be derived)" % (xr, xc, N, (2 * N + 1) * k)))
         return probs, o, None
@@ -599,7 +690,7 @@ def run(ctx):
     objects = []
     for mk in [ukfp_case] * NP + [ukfc_case] * NC:
         st = [mk(g, ctx.tier)]
-        if g.r.random() < (0.85 if st[0].get("online") else 0.4):
+        if g.r.random() < (0.85 if st[0].get("online") else 0.5):
             for _ in range(g.r.choice([1, 2, 3])):
                 st.append(derive_step(st[-1], g))
         objects.append(st)
@@ -635,9 +726,13 @@ def run(ctx):
             hout.append(ho)
             snaps.append(sn)
         hist["steps-per-object=%d" % len(st)] = hist.get("steps-per-object=%d" % len(st), 0) + 1
-        nchg = sum(1 for m_ in st if m_.get("chg"))
+        nchg = sum(1 for m_ in st if m_.get("chg") == 1)
         if nchg:
             hist["online-weights:noise-dimension-changed-between-steps"] = hist.get("online-weights:noise-dimension-changed-between-steps", 0) + nchg
+        for m_ in st:
+            if m_.get("mchg") or m_.get("chg") == 2:
+                kk = "time-varying-model:%s-%s" % ("prediction" if m_["op"] == "ukfp" else "correction", "augmented" if m_["variant"] else "additive")
+                hist[kk] = hist.get(kk, 0) + 1
     first, dl, dmap = [], [], {}
     for ci, (meta, h) in enumerate(zip(metas, hout)):
         if meta["op"] == "ukfp":
